@@ -2,6 +2,7 @@
    Statements only; every proof is `exact <lemma>`. *)
 From Coq Require Import List NArith Arith Bool.
 From RPCX Require Import Client.ClientSM Client.ClientProofs Client.ClientLive.
+From RPCX Require Client.Pending Client.PendingGenProofs.
 Import ListNotations.
 
 (* Any step of call a - registering, a failed encoding of its argument, its write or write failure,
@@ -41,6 +42,18 @@ Example C06_nonvacuous :
   shutdown st = false /\ conn_open st = true.
 Proof. vm_compute. repeat split. Qed.
 
+(* At the granularity of single statements, about the code as it is now (the paths of send, SendRaw, call, input and
+   Close regenerated from client/client.go on every run, see C05 (iv)): under ANY interleaving of any number of
+   goroutines running these paths, a call's fields are written and the call is completed only by the one goroutine
+   that holds it - the function it was handed to until that function registers it, afterwards whoever removed it
+   from the table under the mutex; nobody touches a call that sits in the table, a completed call, a nil call, or a
+   call somebody else has touched since it left the table (that is what bad records). *)
+Theorem C06_a_call_is_touched_only_by_the_goroutine_that_holds_it : forall progs sched,
+  (forall t, PendingGenProofs.runs_of PendingGenProofs.all_paths (progs t)) ->
+  Pending.bad (Pending.run sched (Pending.start progs)) = false.
+Proof. exact PendingGenProofs.client_goroutines_never_share_a_call. Qed.
+
 Print Assumptions C06_own_steps_are_local.
 Print Assumptions C06_received_frame_is_local.
 Print Assumptions C06_connection_not_torn_down.
+Print Assumptions C06_a_call_is_touched_only_by_the_goroutine_that_holds_it.
